@@ -106,3 +106,42 @@ Definition loop_side_ok (F : list val) (o : val) (nf : nat) (s : stmt) (pl : lpl
       && forallb is_flat (lp_epi pl) && forallb (fun x => negb (mem_nat o (flat_reads x))) (lp_epi pl)
   | _ => false
   end.
+
+(* ---- program level: the loop sits directly in the function body ---------------------------------------------------- *)
+From Snax Require Import Model.C04Csr.
+
+Fixpoint split_loop (whole : block) (o : val) (nf : nat) (b : block) : option (block * stmt * block * lplan) :=
+  match b with
+  | [] => None
+  | x :: b' =>
+      match loop_plan whole o nf x with
+      | Some pl => Some ([], x, b', pl)
+      | None => match split_loop whole o nf b' with
+                | Some (pre, y, post, pl) => Some (x :: pre, y, post, pl)
+                | None => None
+                end
+      end
+  end.
+
+(* the ids on which the two runs may differ: the fresh ids of the rewrite and the state / token values (ghosts) *)
+Definition loop_F (p : prog) (nf : nat) (pl : lplan) : list val :=
+  seq nf (lp_nfe pl - nf) ++ block_state_ids (p_body p).
+
+Definition loop_overlap_side_ok (p : prog) (o : val) (nf : nat) : bool :=
+  match split_loop (p_body p) o nf (p_body p) with
+  | Some (pre, x, post, pl) =>
+      let F := loop_F p nf pl in
+      loop_side_ok F o nf x pl
+      && forallb (reads_offb F) pre && forallb (reads_offb F) post
+      && safe_after (lp_a pl) (map fst (lp_fs pl)) post
+  | None => false
+  end.
+
+(* the part that does not depend on what follows the loop (used for the statistics of the check) *)
+Definition loop_inside_side_ok (p : prog) (o : val) (nf : nat) : bool :=
+  match split_loop (p_body p) o nf (p_body p) with
+  | Some (pre, x, post, pl) =>
+      let F := loop_F p nf pl in
+      loop_side_ok F o nf x pl && forallb (reads_offb F) pre
+  | None => false
+  end.
